@@ -102,3 +102,305 @@ func vH_C13_literals(data []byte) {
 		vAssert(!v && pb == ws+5, "C13.false")
 	}
 }
+
+// ---- handler used by C07 / C09 / C10 / C14 -------------------------------
+const vMaxCalls = 8
+
+type vErr struct{}
+
+func (*vErr) Error() string { return "verif stop" }
+
+var vErrStop error = &vErr{}
+
+type vHandler struct {
+	whole    []byte
+	n        int          // calls made
+	mode     int          // 0 well-behaved (0 or exact end), 1 fail at call failAt, 2 hostile (free offset), 3 re-entrant
+	failAt   int
+	expect   bool         // reference member list is valid (container well-formed)
+	nexp     int
+	vs, ve   [vMaxCalls]int // reference value start / end per member
+	ks, ke   [vMaxCalls]int // reference key content start / end per member (objects)
+	bad      bool         // a call did not match the reference member
+	overflow bool
+	oob      bool         // hostile mode: an offset outside [0, len(data)] was returned
+	after    bool         // a call was made after the failing call
+	buf      *Buffer      // re-entrant mode: the enclosing call's buffer
+	fn       int
+}
+
+func (h *vHandler) HandleArrayValue(data []byte) (int, error) { return h.handle(nil, false, data) }
+func (h *vHandler) HandleObjectValue(key, data []byte) (int, error) {
+	return h.handle(key, true, data)
+}
+
+func (h *vHandler) handle(key []byte, isObj bool, data []byte) (int, error) {
+	k := h.n
+	h.n++
+	if k >= vMaxCalls {
+		h.overflow = true
+		return 0, nil
+	}
+	if h.expect {
+		if k >= h.nexp {
+			h.bad = true
+		} else {
+			if len(h.whole)-len(data) != h.vs[k] {
+				h.bad = true
+			}
+			if isObj {
+				if len(key) != h.ke[k]-h.ks[k] {
+					h.bad = true
+				} else {
+					for i := 0; i < len(key); i++ {
+						if key[i] != h.whole[h.ks[k]+i] {
+							h.bad = true
+						}
+					}
+				}
+			}
+		}
+	}
+	switch h.mode {
+	case 1:
+		if k > h.failAt {
+			h.after = true
+		}
+		if k == h.failAt {
+			return vNondetInt("pp"), vErrStop
+		}
+	case 2:
+		pp := vNondetInt("pp")
+		if pp < 0 || pp > len(data) {
+			h.oob = true
+		}
+		return pp, nil
+	case 3:
+		// re-enter the library on this member with the enclosing call's Buffer
+		var p int
+		var err error
+		switch h.fn {
+		case 0:
+			p, err = SkipValue(data, h.buf)
+		case 1:
+			p, err = SkipValueFast(data, h.buf)
+		case 2:
+			if Valid(data, h.buf) {
+				p = len(data)
+			}
+		case 3:
+			var inner vHandler
+			p, err = HandleArrayValues(data, &inner, h.buf)
+		default:
+			var inner vHandler
+			p, err = HandleObjectValues(data, &inner, h.buf)
+		}
+		if err != nil {
+			return 0, nil
+		}
+		return p, nil
+	}
+	end, ok := vRefValueEnd(data, 0, 0)
+	if ok && vNondetBool("exact") {
+		return end, nil
+	}
+	return 0, nil
+}
+
+// vRefMembers fills the reference member list of the well-formed container at ws.
+func vRefMembers(data []byte, ws int, h *vHandler) {
+	obj := data[ws] == '{'
+	p := vSkipWS(data, ws+1)
+	k := 0
+	if data[p] == ']' || data[p] == '}' {
+		h.nexp = 0
+		return
+	}
+	for {
+		if obj {
+			e, _ := vRefStringEnd(data, p)
+			if k < vMaxCalls {
+				h.ks[k] = p + 1
+				h.ke[k] = e - 1
+			}
+			p = vSkipWS(data, e)
+			p = vSkipWS(data, p+1) // ':'
+		}
+		e, _ := vRefValueEnd(data, p, 1)
+		if k < vMaxCalls {
+			h.vs[k] = p
+			h.ve[k] = e
+		}
+		k++
+		p = vSkipWS(data, e)
+		if data[p] != ',' {
+			break
+		}
+		p = vSkipWS(data, p+1)
+	}
+	h.nexp = k
+}
+
+func vHandleValues(obj bool, data []byte, h *vHandler, buf *Buffer) (int, error) {
+	if obj {
+		return HandleObjectValues(data, h, buf)
+	}
+	return HandleArrayValues(data, h, buf)
+}
+
+// ---- C07 ---------------------------------------------------------------
+func vH_C07(data []byte, obj bool) {
+	open := byte('[')
+	if obj {
+		open = '{'
+	}
+	ws := vSkipWS(data, 0)
+	end, ok := vRefSkip(data)
+	isCont := ok && data[ws] == open
+	isNull := ok && data[ws] == 'n'
+	h := &vHandler{whole: data}
+	if isCont {
+		vRefMembers(data, ws, h)
+		h.expect = true
+	}
+	p, err := vHandleValues(obj, data, h, nil)
+	vAssume(!h.overflow)
+	vReach("C07.returned")
+	vAssert((err == nil) == (isCont || isNull), "C07.success")
+	if err == nil && (isCont || isNull) {
+		vReach("C07.success")
+		vAssert(p == end, "C07.offset")
+		vAssert(!h.bad, "C07.member-args")
+		vAssert(h.n == h.nexp, "C07.call-count")
+	}
+}
+
+// ---- C09 ---------------------------------------------------------------
+func vH_C09(data []byte, obj bool, failAt int) {
+	h := &vHandler{whole: data, mode: 1, failAt: failAt}
+	_, err := vHandleValues(obj, data, h, nil)
+	if h.n > failAt {
+		vReach("C09.failed-call-made")
+		vAssert(err == vErrStop, "C09.same-error")
+		vAssert(h.n == failAt+1, "C09.no-further-calls")
+		vAssert(!h.after, "C09.no-call-after")
+	}
+}
+
+// ---- C10 (handlers) ----------------------------------------------------
+func vH_C10_handler(data []byte, obj bool, bufmode int) {
+	h := &vHandler{whole: data, mode: 2}
+	p, err := vHandleValues(obj, data, h, vMakeBuffer(bufmode))
+	vAssume(!h.overflow)
+	vReach("C10.handler-returned")
+	if err == nil {
+		vAssert(p >= 0 && p <= len(data), "C10.offset-in-range")
+		vAssert(!h.oob, "C10.oob-offset-is-error")
+	}
+}
+
+// ---- C10 (all entry points on arbitrary bytes) --------------------------
+func vInRange(p int, err error, data []byte, id string) {
+	if err == nil {
+		vAssert(p >= 0 && p <= len(data), id)
+	}
+}
+
+func vH_C10_scalars(data []byte, bufmode int) {
+	buf := vMakeBuffer(bufmode)
+	p, err := SkipValue(data, buf)
+	vInRange(p, err, data, "C10.SkipValue")
+	p, err = SkipValueFast(data, buf)
+	vInRange(p, err, data, "C10.SkipValueFast")
+	Valid(data, buf)
+	_, p, err = NextToken(data)
+	vInRange(p, err, data, "C10.NextToken")
+	_, p, err = NextTokenType(data)
+	vInRange(p, err, data, "C10.NextTokenType")
+	p, err = ReadNull(data)
+	vInRange(p, err, data, "C10.ReadNull")
+	_, p, err = ReadBool(data)
+	vInRange(p, err, data, "C10.ReadBool")
+	_, p, err = ReadInt64(data)
+	vInRange(p, err, data, "C10.ReadInt64")
+	_, p, err = ReadUint64(data)
+	vInRange(p, err, data, "C10.ReadUint64")
+	_, p, err = ReadInt32(data)
+	vInRange(p, err, data, "C10.ReadInt32")
+	_, p, err = ReadUint32(data)
+	vInRange(p, err, data, "C10.ReadUint32")
+	_, p, err = ReadInt(data)
+	vInRange(p, err, data, "C10.ReadInt")
+	_, p, err = ReadUint(data)
+	vInRange(p, err, data, "C10.ReadUint")
+	vReach("C10.scalars-done")
+}
+
+func vH_C10_strings(data []byte, spare int) {
+	dst := make([]byte, 0, spare)
+	_, p, err := ReadStringBytes(data, dst)
+	vInRange(p, err, data, "C10.ReadStringBytes")
+	_, p, err = ReadString(data, nil)
+	vInRange(p, err, data, "C10.ReadString")
+	var s string
+	p, err = DecodeString(data, &s, &dst)
+	vInRange(p, err, data, "C10.DecodeString")
+	_, p, err = UnescapeStringContent(data, nil)
+	vInRange(p, err, data, "C10.UnescapeStringContent")
+	StdLibCompatibleStringBytes(data, nil)
+	vReach("C10.strings-done")
+}
+
+// ---- C14 ---------------------------------------------------------------
+func vCallBuf(fn int, data []byte, h *vHandler, buf *Buffer) (int, error) {
+	switch fn {
+	case 0:
+		return SkipValue(data, buf)
+	case 1:
+		return SkipValueFast(data, buf)
+	case 2:
+		if Valid(data, buf) {
+			return 1, nil
+		}
+		return 0, nil
+	case 3:
+		return HandleArrayValues(data, h, buf)
+	}
+	return HandleObjectValues(data, h, buf)
+}
+
+// one call with an arbitrary (previously used) Buffer vs. the same call with nil
+func vH_C14(data []byte, fn int, bufmode int) {
+	h1 := &vHandler{whole: data}
+	h2 := &vHandler{whole: data}
+	p1, err1 := vCallBuf(fn, data, h1, nil)
+	// the same handler strategy for both runs: replay the nondeterministic choices
+	p2, err2 := vCallBuf(fn, data, h2, vMakeBuffer(bufmode))
+	vReach("C14.compared")
+	if fn >= 3 {
+		// handler strategies are chosen independently in the two runs; compare only
+		// what does not depend on them
+		vAssert((err1 == nil) == (err2 == nil), "C14.same-success")
+		if err1 == nil && err2 == nil {
+			vAssert(p1 == p2, "C14.same-offset")
+			vAssert(h1.n == h2.n, "C14.same-calls")
+		}
+		return
+	}
+	vAssert(err1 == err2, "C14.same-error")
+	vAssert(p1 == p2, "C14.same-offset")
+}
+
+// re-entrant sharing: the handler re-enters function `inner` with the very Buffer
+// of the enclosing call `outer`; compared with the all-nil run.
+func vH_C14_reentrant(data []byte, outer int, inner int, bufmode int) {
+	buf := vMakeBuffer(bufmode)
+	h1 := &vHandler{whole: data, mode: 3, fn: inner}
+	h2 := &vHandler{whole: data, mode: 3, fn: inner, buf: buf}
+	p1, err1 := vCallBuf(3+outer, data, h1, nil)
+	p2, err2 := vCallBuf(3+outer, data, h2, buf)
+	vReach("C14.reentrant-compared")
+	vAssert(err1 == err2, "C14.re.same-error")
+	vAssert(p1 == p2, "C14.re.same-offset")
+	vAssert(h1.n == h2.n, "C14.re.same-calls")
+}
